@@ -74,6 +74,55 @@ pub fn generate(dir: &str, seed: u64) {
     eprintln!("golden corpus written to {dir}");
 }
 
+/// long plaintexts over tiny alphabets (deep hash chains reaching the window limit), compressed at
+/// the levels with long chain walks: items that exercise the distance limits of the match search
+pub fn generate_deep(dir: &str, seed: u64, count: usize) {
+    std::fs::create_dir_all(dir).unwrap();
+    let mut st = String::new();
+    let mut kept = 0;
+    let mut i = 0u64;
+    while kept < count && i < 4000 {
+        let mut r = Rng::new(seed ^ 0xdee9 ^ (i << 8));
+        i += 1;
+        let n = r.range(33000, 70000) as usize;
+        let alpha = r.range(2, 5);
+        let mut p: Vec<u8> = Vec::with_capacity(n);
+        // runs of random symbols with occasional planted repeats at long distances
+        while p.len() < n {
+            if r.chance(1, 40) && p.len() > 33000 {
+                let d = r.range(32400, 32768) as usize;
+                let l = r.range(4, 40) as usize;
+                let st0 = p.len() - d.min(p.len());
+                for k in 0..l {
+                    let b = p[st0 + k];
+                    p.push(b);
+                }
+            } else {
+                p.push(b'a' + r.below(alpha) as u8);
+            }
+        }
+        p.truncate(n);
+        let d = match r.below(4) {
+            0 => comp::zlib_deflate(&p, r.range(4, 9) as i32, 0, 15, 8, 0, 0),
+            1 => comp::zlib_deflate(&p, 9, 0, 15, r.range(5, 9) as i32, 0, 0),
+            2 => comp::zng_deflate(&p, r.range(3, 9) as i32, 0, 15, 8),
+            _ => comp::libdeflate_deflate(&p, r.range(2, 9) as i32),
+        };
+        if let streams::Outcome::Ok(x) = streams::decompress(&d, true) {
+            match comp::zlib_inflate_raw(&d[..x.size], 1 << 28) {
+                Some((pp, nn)) if pp == x.plain && nn == x.size => {}
+                _ => continue,
+            }
+            writeln!(st, "stream {} {}", hex(&d[..x.size]), hex(&x.corr)).unwrap();
+            kept += 1;
+        }
+    }
+    std::fs::write(format!("{dir}/streams.txt"), st).unwrap();
+    let (a, b) = vh::format_versions();
+    std::fs::write(format!("{dir}/versions.txt"), format!("{a} {b}\n")).unwrap();
+    eprintln!("deep golden corpus: {kept} items written to {dir}");
+}
+
 fn golden_dirs() -> Vec<String> {
     let base = concat!(env!("CARGO_MANIFEST_DIR"), "/../corpus/golden");
     let mut v = Vec::new();
